@@ -198,7 +198,7 @@ def r03_2(run, model):
                        witness=f"a mismatch inside a {v} is reported nowhere / unify returns true")
     if t.catch:
         b = S.norm_ws(run.facts.text(UNI, t.catch[0]["body"]["sp"]))
-        ok = "diagnostics.push(" in b and "Severity::Error" in b and "returnfalse" in b
+        ok = S.pushes_error(model, run.facts, UNI, t.catch[0]["body"]) and "returnfalse" in b
         run.ob("R03.2", "Typer::unify|catch-all rejects", ok, site(UNI, t.catch[0]["sp"]), "mismatched constructors push an Error diagnostic and return false" if ok else f"catch-all: {b[:80]}",
                witness="int32 unifies with string")
     # typer-side structural traversals handle every former
@@ -230,7 +230,7 @@ def r03_3(run, model):
         for arm in m["arms"]:
             if "TVar" in S.norm_ws(run.facts.text(UNI, arm["pat"]["sp"])):
                 b = S.norm_ws(run.facts.text(UNI, arm["body"]["sp"]))
-                ok = "probe_value" in b and "self.subst_ty(" in b and "diagnostics.push(" in b and "Severity::Error" in b
+                ok = "probe_value" in b and "self.subst_ty(" in b and S.pushes_error(model, run.facts, UNI, arm["body"])
     run.ob("R03.3", "subst_ty|TVar reported", ok, site(UNI, f.node["sp"]), "TVar arm: probe, recurse, else Error diagnostic" if ok else "an unresolved type variable passes silently",
            witness="`let v = vec_new();` with no use: a TVar reaches Core/mono")
 
@@ -633,6 +633,15 @@ def r03_14(run, model, only=None):
             n += 1
             uses = [x for x in S.walk(f.body) if x["k"] == "MethodCall" and x["method"] == "get_ty" and S.is_path(x["recv"], name)]
             led = INFER_LEDGER.get((f.name, name))
+            if not uses and led is None:
+                # the child is collected into a vector whose elements' types are read (the statements of a block: the last one's type
+                # is the block's) - the read goes through the vector
+                ftxt = S.norm_ws(run.facts.text(CHECK, f.body["sp"]))
+                for pc in S.walk(f.body):
+                    if pc["k"] == "MethodCall" and pc["method"] == "push" and pc["recv"]["k"] == "Path" and any(S.is_path(a, name) for a in pc["args"]):
+                        vec = pc["recv"]["segs"][-1]
+                        if re.search(re.escape(vec) + r"\.(last|iter|first)\(\)[^;]*get_ty\(\)", ftxt):
+                            led = f"collected into `{vec}`, whose elements' types are read"
             run.ob("R03.14", f"{f.name}|type of `{name}` is consulted", bool(uses) or led is not None, site(CHECK, l["sp"]),
                    f"{len(uses)} reads of {name}.get_ty()" + (f"; ledger: {led}" if led and not uses else ""),
                    witness="let v = if c { 1 } else { \"one\" }; is accepted: Core has EIf{ty:int32, then:int32, else:string}")
@@ -903,27 +912,48 @@ def r03_22(run, model):
                     # only the accumulator of this scope (the same name is reused arm by arm)
                     lists.append((nm, l, "vector of .get_ty()"))
         par = S.Parents(f.body)
+
+        def reaches(fn_, fpar, scope, nm, after, depth=0):
+            """a TFunc { params: nm } built in `scope` after `after` is an operand of push_constraint - directly, through a local, or
+            in a helper of the same file that is handed the list"""
+            for st in S.find(scope, "Struct"):
+                if st["segs"][-1] != "TFunc":
+                    continue
+                pf = next((fl for fl in st["fields"] if fl["name"] == "params"), None)
+                if pf is None or nm not in S.idents(pf["expr"]) or (st["sp"][0], st["sp"][1]) < after:
+                    continue
+                holder = next((a for a in fpar.ancestors(st) if a["k"] == "Local"), None)
+                direct = any(a["k"] == "MethodCall" and a["method"] == "push_constraint" for a in fpar.ancestors(st))
+                via = False
+                if holder is not None and holder["pat"]["k"] == "PIdent":
+                    hn = holder["pat"]["name"]
+                    via = any(c["k"] == "MethodCall" and c["method"] == "push_constraint" and hn in S.idents(c) for c in S.walk(scope))
+                if direct or via:
+                    return f"params of the call-site function type at line {st['sp'][0]}, which is an operand of push_constraint"
+            if depth < 1:
+                for c in S.walk(scope):
+                    if c["k"] not in ("Call", "MethodCall") or (c["sp"][0], c["sp"][1]) < after:
+                        continue
+                    idx = [i for i, a in enumerate(c["args"]) if S.is_path(a, nm)]
+                    hs = [h for h in model.fns(CHECK) if h.name == S.callee_name(c) and h.body is not None and h.name != fn_.name]
+                    if not idx or len(hs) != 1:
+                        continue
+                    ps = [p for p in hs[0].params() if not p["self"]]
+                    if idx[0] < len(ps) and ps[idx[0]]["pat"]["k"] == "PIdent":
+                        got = reaches(hs[0], S.Parents(hs[0].body), hs[0].body, ps[idx[0]]["pat"]["name"], (0, 0), depth + 1)
+                        if got:
+                            return f"handed to {hs[0].name}: " + got
+            return None
+
         for nm, l, how in lists:
             n += 1
             scope = next((a for a in par.ancestors(l) if a["k"] == "Block"), f.body)
             ok, why = False, "the list is discarded (`_`)"
             if nm is not None:
                 why = "no TFunc { params: .. } built from it reaches a pushed constraint"
-                for st in S.find(scope, "Struct"):
-                    if st["segs"][-1] != "TFunc":
-                        continue
-                    pf = next((fl for fl in st["fields"] if fl["name"] == "params"), None)
-                    if pf is None or nm not in S.idents(pf["expr"]) or (st["sp"][0], st["sp"][1]) < (l["sp"][0], l["sp"][1]):
-                        continue
-                    holder = next((a for a in par.ancestors(st) if a["k"] == "Local"), None)
-                    direct = any(a["k"] == "MethodCall" and a["method"] == "push_constraint" for a in par.ancestors(st))
-                    via = False
-                    if holder is not None and holder["pat"]["k"] == "PIdent":
-                        hn = holder["pat"]["name"]
-                        via = any(c["k"] == "MethodCall" and c["method"] == "push_constraint" and hn in S.idents(c) for c in S.walk(scope))
-                    if direct or via:
-                        ok, why = True, f"params of the call-site function type at line {st['sp'][0]}, which is an operand of push_constraint"
-                        break
+                got = reaches(f, par, scope, nm, (l["sp"][0], l["sp"][1]))
+                if got:
+                    ok, why = True, got
             key = f"{f.name}|argument types ({how}) #{sum(1 for x in lists[:lists.index((nm, l, how))] if x[2] == how) + 1} reach a constraint as a function type"
             run.ob("R03.22", key, ok, site(CHECK, l["sp"]), why,
                    witness="fn scale(x: int32) -> int32 { x * 2 } .. scale(3, \"unused\"), scale(): accepted; Core carries calls whose argument "
